@@ -1039,8 +1039,13 @@ def cond_discard_depends_on_old_check(ctx, method, rule="DEP-old-check"):
         d1 = [x for x in subterms(d) if x[0] == "idx" and is_const(x[2], 2) and is_call(x[1]) and x[1][1] == ("attr", ("attr", SELF, "callee_"), method)]
         if not (d0 and d1):
             continue
-        if mentions(d, old_check) or mentions(d, CHECK):
-            ctx.ok(rule, construct, "discard arms selected by a condition")
+        if mentions(d, old_check):
+            ctx.ok(rule, construct, "discard arms selected by the old trace's condition")
+        elif mentions(d, CHECK):
+            ctx.bad(rule, construct, "discard selected by the new condition",
+                    f"discard = {short(d, ev, 200)}: selected by the NEW condition; the discarded values are those visible under the old "
+                    "trace's condition (tr.check)", func_loc(ctx, dotted))
+            return
         else:
             ctx.bad(rule, construct, "discard merges both branches without a condition",
                     f"discard = {short(d, ev, 200)}: merged without any condition, so on shared addresses the second branch's old value is returned "
@@ -1162,3 +1167,95 @@ def merge_polarity(ctx, rule="ROLE-merge-polarity"):
         if ast.unparse(w.args[0]) != "check" or first != "x" or second != "x_":
             ck.fail("where(check, x-side, x_-side)", f"found where({ast.unparse(w.args[0])}, {first}-side, {second}-side)")
     ck.done()
+
+
+def ih_regen_axiom(x):
+    """Induction hypothesis for a callee regenerate R = g.regenerate(t, s, ...):
+    weight(R) ≡ score(t) − score(new trace) + CORR(R)   (CORR = fresh-choice correction of that call)."""
+    if x[0] == "idx" and is_const(x[2], 1) and is_call(x[1]) and x[1][1][0] == "attr" and x[1][1][2] == "regenerate":
+        u = x[1]
+        old = u[2][0]
+        return ("binop", "+", ("binop", "-", SC(old), SC(("idx", u, C(0)))), call(N("CORR"), u))
+    return None
+
+
+def cond_regenerate_rebased(ctx, rule="ALG-cond-regenerate"):
+    """weight + S(new CondTr) − S(old CondTr) ≡ where(new check, CORR(branch0), CORR(branch1)): each branch weight is
+    relative to that branch's own old score, so the result must be re-based on the score visible under the old condition
+    (mixture-indicator move of C09; a no-op when the branch is unchanged)."""
+    ev = cond_ev(ctx)
+    dotted = CORE + "Cond.regenerate"
+    s = summarize(ctx, ev, dotted)
+    lin = mk_lin(ev, extra=[ih_regen_axiom, condtr_score_axiom])
+    construct = "core.Cond.regenerate"
+    SEL = ("param", "s")
+    t0, t1 = ("idx", ("attr", TR, "trs"), C(0)), ("idx", ("attr", TR, "trs"), C(1))
+    a, b = cond_sub("callee", "regenerate", t0, SEL), cond_sub("callee_", "regenerate", t1, SEL)
+    n = 0
+    for asg, leaf in spine_cases(s.ret):
+        it = items(leaf)
+        if it is None or len(it) != 3:
+            raise AnalysisError(f"{construct}: shape not recognised")
+        new_score = ev.simplify_call(("call", ("attr", it[0], "get_score"), (), ()), None, None)
+        if new_score is None:
+            raise AnalysisError(f"{construct}: new trace is not a CondTr construction")
+        total = ("binop", "-", ("binop", "-", ("binop", "+", it[1], new_score), SC(TR)), where(CHECK, call(N("CORR"), a), call(N("CORR"), b)))
+        badc = [(a2, lf) for a2, lf in lin.cases(total) if lf]
+        n += 1
+        if not badc:
+            ctx.ok(rule, construct, "weight re-based on the old visible score in every (new check, old check) case")
+        for a2, lf in badc:
+            when = ", ".join(f"{k}={v}" for k, v in sorted(a2.items()))
+            ctx.bad(rule, construct, f"[{when}] residual {fmt_lf(lf)}",
+                    f"when {when}: weight + S(new) − S(old) − correction = {fmt_lf(lf)}: the branch weight is relative to the hidden branch's old score "
+                    "(an indicator flip over observed branch choices gets weight 0 and is always accepted)", func_loc(ctx, dotted))
+    ctx.need(n >= 1, f"{construct}: no return case analysed")
+
+
+def trace_accessors(ctx, rule="ROLE-trace-accessors"):
+    """Tr / ScanTr accessors return the stored fields; Tr.get_score reduces a vectorised score completely."""
+    ev = mk_ev(ctx)
+    lin = mk_lin(ev)
+    fld = lambda f: ("attr", SELF, f)
+    # Tr.get_score
+    dotted = CORE + "Tr.get_score"
+    s = summarize(ctx, ev, dotted)
+    ck = Checker(ctx, ev, lin, rule, "core.Tr.get_score", func_loc(ctx, dotted))
+    sc = fld("_score")
+    for asg, leaf in spine_cases(s.ret):
+        vectorised = None
+        for c, v in asg.items():
+            if c in (call(N("jax.numpy.shape"), sc), call(N("jax.numpy.ndim"), sc), ("attr", sc, "shape"), ("attr", sc, "ndim")):
+                vectorised = v
+            else:
+                raise AnalysisError(f"core.Tr.get_score: unrecognised condition {short(c, ev)}")
+        if vectorised is False:
+            ck.eq("scalar score returned as is", leaf, sc)
+        else:
+            if not (is_call(leaf, name="jax.numpy.sum") and leaf[2] == (sc,) and all(k == "axis" and is_const(v, None) for k, v in leaf[3])):
+                ck.fail("vectorised score summed over all axes", f"found {short(leaf, ev)} (a partial reduction leaves a vector score for nested combinators)")
+    ck.done()
+    table = [("Tr", "get_retval", fld("_retval")), ("Tr", "get_args", fld("_args")),
+             ("Tr", "get_choices", call(N(CORE + "get_choices"), fld("_choices"))),
+             ("Tr", "get_fixed_choices", call(N(CORE + "get_fixed_choices"), fld("_choices"))),
+             ("ScanTr", "get_score", ("call", ("attr", fld("traces"), "get_score"), (), ())),
+             ("ScanTr", "get_retval", ("tuple", (fld("final_carry"), fld("outs")))),
+             ("ScanTr", "get_args", fld("args")),
+             ("ScanTr", "get_choices", ("call", ("attr", fld("traces"), "get_choices"), (), ())),
+             ("ScanTr", "get_gen_fn", fld("gen_fn")), ("CondTr", "get_gen_fn", fld("gen_fn"))]
+    for cls, m, want in table:
+        dotted = CORE + cls + "." + m
+        s = summarize(ctx, ev, dotted)
+        if lin.norm(s.ret) == lin.norm(want):
+            ctx.ok(rule, f"core.{cls}.{m}")
+        else:
+            ctx.bad(rule, f"core.{cls}.{m}", "returns the stored field", f"expected {short(want, ev)}, found {short(s.ret, ev)}", func_loc(ctx, dotted))
+    # Tr.get_gen_fn
+    s = summarize(ctx, ev, CORE + "Tr.get_gen_fn")
+    if s.ret == fld("_gen_fn"):
+        ctx.ok(rule, "core.Tr.get_gen_fn")
+    else:
+        ctx.bad(rule, "core.Tr.get_gen_fn", "returns the stored field", f"found {short(s.ret, ev)}", func_loc(ctx, CORE + "Tr.get_gen_fn"))
+    # log_density convenience
+    s = summarize(ctx, ev, CORE + "GFI.log_density")
+    ctx.fn(CORE + "GFI.log_density")
